@@ -220,6 +220,10 @@ def rule_inloop(ctx):
     ctx.check(ok, "C15.INLOOP", st.short, "both connections deliver into process_message and both receive loops are started", "Client.start does not wire both connections to process_message / start both receive loops", fi=st, text="start")
 
 
+# bytes from the server are turned into text before the per-message containment: the codec must be total and
+# independent of where a read ends
+IMPORTS = [('C02', 'C02.DECODE')]
+
 RULES = [
     ("C15.MIRROR", rule_mirror, "catalogue of def/set/del streams x 5 kinds: abstract mirror equals the reference interpretation; nothing raises"),
     ("C15.KINDS", rule_kinds, "client vector/element classes bind message classes per the protocol kind table"),
